@@ -158,7 +158,8 @@ def make_case(geom, toks, info, checks, trail=b"", tags=(), flavour="plain"):
             if v or any(getattr(a, "short", False) for a in g2.atts):
                 return ("decoded-geometry-invalid", f"decoded geometry is not structurally valid: {v or 'attribute buffer too small'} for `{case.op[:300]}`")
         if "counts" in checks and info["track"]:
-            if r["nep"] != g2.num_points or (geom.is_mesh and r["nef"] != len(g2.faces)):
+            # a point cloud decodes to 0 faces: the reported face count must be 0 as well
+            if r["nep"] != g2.num_points or r["nef"] != len(g2.faces):
                 return ("encoded-counts", f"encoder reported {r['nep']} points / {r['nef']} faces, decoder produced {g2.num_points} / {len(g2.faces)} for `{case.op[:300]}`")
         return None
 
